@@ -13,3 +13,150 @@ pub fn compress_iv(left: &[u8; 32], right: &[u8; 32]) -> [u8; 32] {
 pub fn any_bytes<const N: usize>() -> [u8; N] {
     kani::any()
 }
+
+use elements::encode::{self, Decodable, Encodable};
+
+/// Codec obligation (a) of DESIGN C01 for one concrete type `T` on an `N`-byte symbolic buffer
+/// with symbolic length: if `consensus_decode` accepts, then re-encoding the value reproduces
+/// exactly the consumed prefix, and the encoder's reported length == bytes written == bytes consumed.
+/// Returns the decoded value and consumed count for type-specific extra assertions.
+pub fn codec_bytes_rt<T: Decodable + Encodable, const N: usize>() -> Option<(T, usize, [u8; N])> {
+    let buf: [u8; N] = kani::any();
+    let len: usize = kani::any();
+    kani::assume(len <= N);
+    let mut rd: &[u8] = &buf[..len];
+    match T::consensus_decode(&mut rd) {
+        Ok(v) => {
+            let consumed = len - rd.len();
+            let mut out = [0u8; N];
+            let mut w: &mut [u8] = &mut out[..];
+            let r = v.consensus_encode(&mut w);
+            let written = N - w.len();
+            match r {
+                Ok(n) => {
+                    assert!(n == written, "encoder's reported length == bytes written");
+                    assert!(written == consumed, "re-encoding has the length the decoder consumed");
+                    let mut i = 0;
+                    let mut same = true;
+                    while i < N {
+                        if i < consumed {
+                            same &= out[i] == buf[i];
+                        }
+                        i += 1;
+                    }
+                    assert!(same, "re-encoding reproduces the consumed bytes exactly");
+                }
+                Err(e) => {
+                    core::mem::forget(e);
+                    assert!(false, "re-encoding a decoded value fits in the bytes it was decoded from");
+                }
+            }
+            Some((v, consumed, buf))
+        }
+        Err(e) => {
+            core::mem::forget(e);
+            None
+        }
+    }
+}
+
+/// Value-side obligation (c): encode an in-memory value, decode it back, compare with `eq`.
+pub fn codec_value_rt<T: Decodable + Encodable, const N: usize>(v: &T, eq: impl Fn(&T, &T) -> bool) {
+    let mut out = [0u8; N];
+    let mut w: &mut [u8] = &mut out[..];
+    let r = v.consensus_encode(&mut w);
+    let written = N - w.len();
+    match r {
+        Ok(n) => {
+            assert!(n == written, "encoder's reported length == bytes written");
+            let mut rd: &[u8] = &out[..written];
+            match T::consensus_decode(&mut rd) {
+                Ok(v2) => {
+                    assert!(rd.is_empty(), "decoder consumes exactly what the encoder wrote");
+                    assert!(eq(v, &v2), "decode(encode(v)) == v");
+                    core::mem::forget(v2);
+                }
+                Err(e) => {
+                    core::mem::forget(e);
+                    assert!(false, "decoder accepts what the encoder wrote");
+                }
+            }
+        }
+        Err(e) => {
+            core::mem::forget(e);
+            assert!(false, "value fits the harness buffer");
+        }
+    }
+}
+
+/// Wrapper rule (b): `deserialize` accepts iff `deserialize_partial` accepts and consumed everything.
+pub fn deserialize_rule<T: Decodable, const N: usize>() {
+    let buf: [u8; N] = kani::any();
+    let len: usize = kani::any();
+    kani::assume(len <= N);
+    let full = encode::deserialize::<T>(&buf[..len]);
+    let part = encode::deserialize_partial::<T>(&buf[..len]);
+    match (&full, &part) {
+        (Ok(_), Ok((_, c))) => {
+            assert!(*c == len, "deserialize accepts only when everything was consumed");
+            kani::cover!(true, "deserialize accepted");
+        }
+        (Err(_), Ok((_, c))) => {
+            assert!(*c < len, "deserialize rejects only trailing data when the partial decode succeeds");
+            kani::cover!(true, "trailing data rejected");
+        }
+        (Err(_), Err(_)) => {}
+        (Ok(_), Err(_)) => assert!(false, "deserialize cannot succeed when the partial decode fails"),
+    }
+    core::mem::forget(full);
+    core::mem::forget(part);
+}
+
+// ---- genuine curve encodings (from the repository's own test vectors): accepted by real libsecp,
+// and assumed accepted by the model's uninterpreted validity predicate ----
+pub const X01: [u8; 32] = [1; 32];
+fn enc33(prefix: u8, x: [u8; 32]) -> [u8; 33] {
+    let mut b = [0u8; 33];
+    b[0] = prefix;
+    b[1..].copy_from_slice(&x);
+    b
+}
+pub fn genuine_value_commitment(odd: bool) -> elements::confidential::Value {
+    match elements::confidential::Value::from_commitment(&enc33(if odd { 9 } else { 8 }, X01)) {
+        Ok(v) => v,
+        Err(e) => {
+            core::mem::forget(e);
+            kani::assume(false);
+            unreachable!()
+        }
+    }
+}
+pub fn genuine_asset_commitment(odd: bool) -> elements::confidential::Asset {
+    match elements::confidential::Asset::from_commitment(&enc33(if odd { 0x0b } else { 0x0a }, X01)) {
+        Ok(v) => v,
+        Err(e) => {
+            core::mem::forget(e);
+            kani::assume(false);
+            unreachable!()
+        }
+    }
+}
+pub fn genuine_nonce_commitment(odd: bool) -> elements::confidential::Nonce {
+    match elements::confidential::Nonce::from_commitment(&enc33(if odd { 3 } else { 2 }, X01)) {
+        Ok(v) => v,
+        Err(e) => {
+            core::mem::forget(e);
+            kani::assume(false);
+            unreachable!()
+        }
+    }
+}
+pub fn genuine_pubkey(odd: bool) -> elements::secp256k1_zkp::PublicKey {
+    match elements::secp256k1_zkp::PublicKey::from_slice(&enc33(if odd { 3 } else { 2 }, X01)) {
+        Ok(v) => v,
+        Err(_) => {
+            kani::assume(false);
+            unreachable!()
+        }
+    }
+}
